@@ -23,9 +23,16 @@
   a value the code cannot produce.  The budget theorems are proved for *every* fuel (so they follow from the
   guard, not from the fuel) and `*_fuel_sufficient` shows the entry points never run out.
 
+  Sections 1–3 are the three loops with their limits fixed for the call.  Section 4: one live object serving a
+  history of calls, its public attributes part of the adversary-visible state (assigned by the caller between
+  calls and by the callbacks during them).  Section 5: the swarm with every limit read where the code reads it
+  (`max_regenerations` at each loop test, `max_steps_per_worker` at each worker start, `entropy_threshold` at each
+  entropy test).  `Model/LoopsDecay.lean`: `heal` with `confidence_decay` read at every attempt.
+
   Not modelled: console output, timestamps, `details` text of apoptosis events, the exact wording of the
   error-context / tool-result prompts (only which trace and which prefix of the raw output they carry),
-  the `...` suffix after the 200-character prefix, `step_timeout` (unused by the code), provider auto-detection.
+  the `...` suffix after the 200-character prefix, `step_timeout` (unused by the code), provider auto-detection,
+  `energy_cost` of log entries, a `tool_calls` value that is neither `None` nor a finite list.
 -/
 namespace Operon.Loops
 
